@@ -278,6 +278,23 @@ def exec_equiv(case):
     if bool(bad.any()):
         i = int(torch.nonzero(bad.reshape(-1))[0])
         out.fail(f"equiv/dequantize-value/{'grouped' if case['grouped_input'] else case['layout']}", f"{int(bad.sum())} elements: AWQ representation {da.reshape(-1)[i].item()!r} vs standard {dq.reshape(-1)[i].item()!r}")
+    # (1b) the dequantized values are the caller's: dequantizing ANOTHER optimised weight of the same size afterwards (a model
+    # has many) must not change them, nor does the other weight dequantize to this one's values
+    if not out.failures:
+        da_keep = da.clone()
+        other_codes = (15 - codes_grouped) if case["grouped_input"] else lay((15 - codes_grouped).reshape(size).contiguous(), case["layout"])
+        a2 = cut(AWQBitsTensor, qint4, 0, 128, size, stride, other_codes, q._scale * 2, q._zeropoint)
+        d2 = a2 if isinstance(a2, Raised) else cut(a2.dequantize)
+        if isinstance(d2, Raised):
+            out.fail(f"equiv/second-tensor-raises:{d2.type}", d2.text)
+        elif not torch.equal(da.nan_to_num(), da_keep.nan_to_num()):
+            out.fail("equiv/dequantize/changed-by-later-dequantize", "the dequantized values of an optimised weight changed when another optimised weight of the same size was dequantized")
+        else:
+            again = cut(a.dequantize)
+            if isinstance(again, Raised) or not torch.equal(again.nan_to_num(), da_keep.nan_to_num()):
+                out.fail("equiv/dequantize/not-repeatable", "dequantizing the same optimised weight again, after another one, gives other values")
+            elif bool(torch.isfinite(d2).all()) and bool(torch.isfinite(again).all()) and torch.equal(d2, again) and bool((q._scale != 0).any()) and bool((again != 0).any()):
+                out.fail("equiv/dequantize/changed-by-later-dequantize", "two different optimised weights dequantize to the same tensor")
     # (2) converting back restores codes, scales and zero-points
     for how in ("qbits_tensor", "state_dict", "state_dict-keep_vars"):
         if how == "qbits_tensor":
